@@ -34,6 +34,9 @@ enum DstClass {
     Loopback,
     /// an address that shares the low 16 bits with ours (regression probe for sloppy matching)
     LookalikeUnicast,
+    /// second IPv4 address / subnet of the interface (two-subnet configurations only)
+    Own2,
+    SubnetBroadcast2,
 }
 #[derive(Clone, Copy, Debug, PartialEq, Eq)]
 enum SrcClass {
@@ -44,6 +47,9 @@ enum SrcClass {
     Unspecified,
     Loopback,
     Own,
+    /// host on / directed broadcast of the second IPv4 subnet
+    OnLink2,
+    Broadcast2,
 }
 #[derive(Clone, Copy, Debug, PartialEq, Eq)]
 enum L2Class {
@@ -82,6 +88,10 @@ struct Inj<'a> {
     joined6: bool,
     has_raw: bool,
     seq154: u8,
+    /// the interface has two IPv4 subnets (10.0.0.1/24 and 172.16.5.1/16) and no IPv6 address
+    two_v4: bool,
+    /// TCP listener bound to a specific address
+    bound_listener: Option<(SocketHandle, IpAddr)>,
 }
 
 fn a6(b0: u8, b1: u8, last2: [u8; 2]) -> [u8; 16] {
@@ -125,7 +135,8 @@ impl<'a> Inj<'a> {
         if v6 {
             let own = self.v6;
             IpAddr::V6(match c {
-                DstClass::Own => own,
+                DstClass::Own | DstClass::Own2 => own,
+                DstClass::SubnetBroadcast2 => a6(0xff, 0x02, [0, 1]),
                 DstClass::OtherOnLink => {
                     let mut a = own;
                     a[15] = 9;
@@ -165,7 +176,9 @@ impl<'a> Inj<'a> {
                 DstClass::ForeignSolicited | DstClass::UnjoinedGroup => [224, 0, 0, 77],
                 DstClass::Unspecified => [0, 0, 0, 0],
                 DstClass::Loopback => [127, 0, 0, 1],
-                DstClass::LookalikeUnicast => [172, 16, 0, 1],
+                DstClass::LookalikeUnicast => [172, 17, 0, 1],
+                DstClass::Own2 => if self.two_v4 { [172, 16, 5, 1] } else { self.v4.unwrap() },
+                DstClass::SubnetBroadcast2 => if self.two_v4 { [172, 16, 255, 255] } else { [10, 0, 0, 255] },
             })
         }
     }
@@ -180,6 +193,8 @@ impl<'a> Inj<'a> {
                 SrcClass::Unspecified => [0; 16],
                 SrcClass::Loopback => a6(0, 0, [0, 1]),
                 SrcClass::Own => self.v6,
+                SrcClass::OnLink2 => on,
+                SrcClass::Broadcast2 => a6(0xff, 0x02, [0, 1]),
             })
         } else {
             IpAddr::V4(match c {
@@ -190,6 +205,8 @@ impl<'a> Inj<'a> {
                 SrcClass::Unspecified => [0, 0, 0, 0],
                 SrcClass::Loopback => [127, 0, 0, 1],
                 SrcClass::Own => self.v4.unwrap(),
+                SrcClass::OnLink2 => if self.two_v4 { [172, 16, 5, 2] } else { [10, 0, 0, 2] },
+                SrcClass::Broadcast2 => if self.two_v4 { [172, 16, 255, 255] } else { [10, 0, 0, 255] },
             })
         }
     }
@@ -238,7 +255,9 @@ pub fn run(tape: &mut Tape, props: Props, thorough: bool, trace_on: bool) -> Out
     cfg.seed = 77 + tape.draw(1 << 16);
     let v6addr: [u8; 16] = if medium == Medium::Ip { a6(0xfd, 0, [0, 1]) } else { a6(0xfe, 0x80, [0, 1]) };
     let v4 = if medium == Medium::Ieee802154 { None } else { Some([10, 0, 0, 1]) };
+    let two_v4 = v4.is_some() && tape.draw(3) == 2;
     cfg.addrs = match v4 {
+        Some(a) if two_v4 => vec![(IpAddr::V4(a), 24), (IpAddr::V4([172, 16, 5, 1]), 16)],
         Some(a) => vec![(IpAddr::V4(a), 24), (IpAddr::V6(v6addr), 64)],
         None => vec![(IpAddr::V6(v6addr), 64)],
     };
@@ -248,6 +267,7 @@ pub fn run(tape: &mut Tape, props: Props, thorough: bool, trace_on: bool) -> Out
     let mk_tcp = || tcp::Socket::new(tcp::SocketBuffer::new(vec![0; 512]), tcp::SocketBuffer::new(vec![0; 512]));
     // listener on any address, listener bound to an address
     let with_listeners = tape.draw(4) != 0;
+    let mut bound_listener = None;
     if with_listeners {
         let mut l = mk_tcp();
         l.listen(80).unwrap();
@@ -255,7 +275,9 @@ pub fn run(tape: &mut Tape, props: Props, thorough: bool, trace_on: bool) -> Out
         let mut l2 = mk_tcp();
         let bound = v4.map(IpAddr::V4).unwrap_or(IpAddr::V6(v6addr));
         l2.listen(IpListenEndpoint { addr: Some(to_smol(&bound)), port: 81 }).unwrap();
-        socks.push(Sk::Tcp(node.sockets.add(l2)));
+        let h2 = node.sockets.add(l2);
+        bound_listener = Some((h2, bound));
+        socks.push(Sk::Tcp(h2));
     }
     // UDP: port only; address + port
     let with_udp = tape.draw(4) != 0;
@@ -298,8 +320,8 @@ pub fn run(tape: &mut Tape, props: Props, thorough: bool, trace_on: bool) -> Out
     if joined6 {
         let _ = node.iface.join_multicast_group(smoltcp::wire::Ipv6Address::new(0xff02, 0, 0, 0, 0, 0, 0, 0x42));
     }
-    let desc = format!("injector medium={:?} listeners={} udp={} raw={} joined4={} joined6={}", medium, with_listeners, with_udp, has_raw, joined4, joined6);
-    let mut c = Inj { tape, props, node, view, medium, now: 1_000_000, stats: Stats::default(), hash: LogHash::new(), trace: vec![], trace_on, events: 0, socks, v4, v6: v6addr, joined4, joined6, has_raw, seq154: 0 };
+    let desc = format!("injector medium={:?} two-ipv4-subnets={} listeners={} udp={} raw={} joined4={} joined6={}", medium, two_v4, with_listeners, with_udp, has_raw, joined4, joined6);
+    let mut c = Inj { tape, props, node, view, medium, now: 1_000_000, stats: Stats::default(), hash: LogHash::new(), trace: vec![], trace_on, events: 0, socks, v4, v6: v6addr, joined4, joined6, has_raw, seq154: 0, two_v4, bound_listener };
     let r = body(&mut c, thorough);
     let nontrivial = c.stats.get("inj.packets") >= 5 && c.stats.get("inj.not-for-us") >= 1;
     c.stats.add("sim.seconds", (c.now / 1_000_000) as u64);
@@ -334,9 +356,9 @@ fn body(c: &mut Inj, thorough: bool) -> Result<(), Violation> {
         // flush anything the stack wants to send on its own so that replies are attributable
         let info = c.node.poll(c.now)?;
         emitted(c, &info)?;
-        let v6 = c.v4.is_none() || c.tape.draw(2) == 1;
-        let dc = *c.tape.pick(&[DstClass::Own, DstClass::OtherOnLink, DstClass::OtherOffLink, DstClass::SubnetBroadcast, DstClass::LimitedBroadcast, DstClass::AllNodes, DstClass::OwnSolicited, DstClass::ForeignSolicited, DstClass::JoinedGroup, DstClass::UnjoinedGroup, DstClass::Unspecified, DstClass::Loopback, DstClass::LookalikeUnicast, DstClass::Own]);
-        let sc = *c.tape.pick(&[SrcClass::OnLink, SrcClass::OnLink, SrcClass::OffLink, SrcClass::Broadcast, SrcClass::Multicast, SrcClass::Unspecified, SrcClass::Loopback, SrcClass::Own, SrcClass::OnLink]);
+        let v6 = !c.two_v4 && (c.v4.is_none() || c.tape.draw(2) == 1);
+        let dc = *c.tape.pick(&[DstClass::Own, DstClass::OtherOnLink, DstClass::OtherOffLink, DstClass::SubnetBroadcast, DstClass::LimitedBroadcast, DstClass::AllNodes, DstClass::OwnSolicited, DstClass::ForeignSolicited, DstClass::JoinedGroup, DstClass::UnjoinedGroup, DstClass::Unspecified, DstClass::Loopback, DstClass::LookalikeUnicast, DstClass::Own, DstClass::Own2, DstClass::SubnetBroadcast2]);
+        let sc = *c.tape.pick(&[SrcClass::OnLink, SrcClass::OnLink, SrcClass::OffLink, SrcClass::Broadcast, SrcClass::Multicast, SrcClass::Unspecified, SrcClass::Loopback, SrcClass::Own, SrcClass::OnLink, SrcClass::OnLink2, SrcClass::Broadcast2]);
         let l2 = match c.medium {
             Medium::Ip => L2Class::Own,
             Medium::Ethernet => *c.tape.pick(&[L2Class::Own, L2Class::Own, L2Class::OtherUnicast, L2Class::Broadcast, L2Class::Multicast]),
@@ -396,8 +418,8 @@ fn body(c: &mut Inj, thorough: bool) -> Result<(), Violation> {
             (Medium::Ieee802154, _) => true,
         };
         let l3_ours = match dc {
-            DstClass::Own => true,
-            DstClass::SubnetBroadcast | DstClass::LimitedBroadcast => true, // (v6: all-nodes)
+            DstClass::Own | DstClass::Own2 => true,
+            DstClass::SubnetBroadcast | DstClass::SubnetBroadcast2 | DstClass::LimitedBroadcast => true, // (v6: all-nodes)
             DstClass::AllNodes => true,
             DstClass::OwnSolicited | DstClass::JoinedGroup => {
                 if v6 {
@@ -409,16 +431,17 @@ fn body(c: &mut Inj, thorough: bool) -> Result<(), Violation> {
             _ => false,
         };
         let for_us = l2_ours && l3_ours;
-        let dst_nonunicast = dst.is_multicast() || dst.is_limited_broadcast() || matches!(dc, DstClass::SubnetBroadcast) && !v6;
+        let dst_nonunicast = dst.is_multicast() || dst.is_limited_broadcast() || matches!(dc, DstClass::SubnetBroadcast | DstClass::SubnetBroadcast2) && !v6;
         // loopback and the node's own address are unicast addresses (martians, but the rule is about
         // broadcast / multicast / unspecified sources)
-        let src_nonunicast = matches!(sc, SrcClass::Broadcast | SrcClass::Multicast | SrcClass::Unspecified);
+        let src_nonunicast = matches!(sc, SrcClass::Broadcast | SrcClass::Broadcast2 | SrcClass::Multicast | SrcClass::Unspecified);
         if !for_us {
             c.stats.inc("inj.not-for-us");
         }
         let summary = format!("{} {}>{} l2={:?} dst={:?} src={:?}", what, src, dst, l2, dc, sc);
         c.log(|| format!("INJ {}", summary));
         let (tcp_before, all_before) = c.snapshot();
+        let bl_before = c.bound_listener.map(|(h, _)| crate::scen_tcp::strip_storage(&format!("{:?}", c.node.sockets.get::<tcp::Socket>(h))));
         c.events += 1;
         c.hash.bytes(&frame);
         c.node.dev.rx.push_back(frame);
@@ -476,6 +499,16 @@ fn body(c: &mut Inj, thorough: bool) -> Result<(), Violation> {
             let (a, b) = crate::scen_tcp::first_diff(&tcp_before, &tcp_after);
             return Err(viol("C11", "tcp-nonunicast", sigfix(format!("C11.tcp-state/dst={:?}", dc)), format!("a TCP segment addressed to a non-unicast/loopback destination changed a TCP socket: {} ; ..{}.. => ..{}..", summary, a, b)));
         }
+        // 5a. a TCP listener bound to one address is untouched by segments addressed to another
+        if let (Some((h, bound)), Some(before)) = (c.bound_listener, bl_before) {
+            if l4p == P_TCP && dst != bound {
+                let after = crate::scen_tcp::strip_storage(&format!("{:?}", c.node.sockets.get::<tcp::Socket>(h)));
+                if before != after {
+                    let (a, b) = crate::scen_tcp::first_diff(&before, &after);
+                    return Err(viol("C11", "endpoint-match", sigfix("C11.endpoint/tcp-socket-bound-to-another-address-changed".to_string()), format!("the TCP socket listening on {}:81 changed on a segment addressed to {}: {} ; ..{}.. => ..{}..", bound, dst, summary, a, b)));
+                }
+            }
+        }
         // 5. whatever reached a UDP socket matches its bound endpoint
         for i in 0..c.socks.len() {
             if let Sk::Udp(h, port, bound) = &c.socks[i] {
@@ -485,7 +518,7 @@ fn body(c: &mut Inj, thorough: bool) -> Result<(), Violation> {
                     c.stats.inc("inj.udp-delivered");
                     let la = meta.local_address.map(|a| from_smol(&a));
                     if let (Some(b), Some(la)) = (bound, la) {
-                        let la_nonunicast = la.is_multicast() || la.is_limited_broadcast() || la == IpAddr::V4([10, 0, 0, 255]);
+                        let la_nonunicast = la.is_multicast() || la.is_limited_broadcast() || la == IpAddr::V4([10, 0, 0, 255]) || la == IpAddr::V4([172, 16, 255, 255]);
                         if la != b && !la_nonunicast {
                             return Err(viol("C11", "endpoint-match", "C11.endpoint/udp-wrong-address", format!("UDP socket bound to {}:{} received a datagram addressed to {}", b, port, la)));
                         }
